@@ -6,9 +6,9 @@ ID = "C11"
 LEVEL = "model_checking"
 RULE = ("operations {runW (new WNTRSimulator), runWs (WNTRSimulator object of the previous run reused), runE (EpanetSimulator), reset (reset_initial_values), copy (deepcopy, continue on the "
         "copy), reload (write_json/read_json, continue on the reloaded model)}; ALL histories of length <= 3 (quick) / <= 4 "
-        "(thorough) over 18 models carrying: status time controls on a pipe, a pump and a valve; a valve setting control; a pump "
+        "(thorough) over 19 models carrying: status time controls on a pipe, a pump and a valve; a valve setting control; a pump "
         "speed control; tank-level controls; a leak window; a rule with ELSE; PDD; an initially CLOSED pump and an initially "
-        "CLOSED / OPEN valve built through the API (no reset after building); a volume-curve tank; a head pump; report steps the simulator adjusts for itself (shorter than / not a multiple of the hydraulic step); six of them additionally with the operation edit (ONE definition edit through the public API followed by reset_initial_values(): pipe diameter, pump curve points, pattern multipliers, volume curve points, junction required pressure, leak replaced) after which the model must behave like one built with the edited value from scratch.  A state is a history prefix "
+        "CLOSED / OPEN valve built through the API (no reset after building); a volume-curve tank; a head pump; a head pump pushed beyond the end of its curve; report steps the simulator adjusts for itself (shorter than / not a multiple of the hydraulic step); six of them additionally with the operation edit (ONE definition edit through the public API followed by reset_initial_values(): pipe diameter, pump curve points, pattern multipliers, volume curve points, junction required pressure, leak replaced) after which the model must behave like one built with the edited value from scratch.  A state is a history prefix "
         "(runtime state of live objects cannot be canonicalised, so prefixes are not merged); every transition replays the history "
         "on a fresh real model.  invariant in every state: to_dict(wn) (JSON-normalised) equals the initial dictionary.  oracles: "
         "runW on a fresh state (initial, after reset, reloaded, or a copy of one) equals the first fresh runW of that model (1e-9); "
@@ -80,6 +80,10 @@ def models():
     s["links"][0] = HP("p1", "R", "J1", [[0.0, 60.0], [0.05, 50.0], [0.1, 20.0]])
     M["hpump_curve"] = s
     M["pattern"] = base()
+    # a head pump pushed beyond the end of its curve by gravity (legal: the simulator only warns about it)
+    M["pump_beyond_curve"] = spec([R("R", 50.0), J("J1", 0.0, [[0.005, "P1", None]]), J("J2", 5.0, [[0.005, None, None]]), R("R2", 10.0)],
+                                  [HP("p1", "R", "J1", [[0.01, 20.0]]), P("p2", "J1", "J2"), P("p3", "J2", "R2")],
+                                  OPTS(dur=3 * H), patterns={"P1": [1.0, 1.6, 0.6]})
     # time options the simulator has to adjust for itself (report step shorter than / not a multiple of the hydraulic step)
     s = base(); s["opts"].update(hyd=3600, rep=1800)
     M["report_lt_hydraulic"] = s
